@@ -373,6 +373,11 @@ class Interp:
     def tensor_binop(self, op, a, b):
         ctx = self.ctx
         if op is ast.MatMult:
+            if (isinstance(a, T.LamTensor) and isinstance(b, T.LamTensor) and a.ndim == 2 and b.ndim == 2
+                    and not (isinstance(a.shape[1], int) and isinstance(b.shape[0], int))):
+                # contraction over a symbolic dimension: only the shape is known (A4)
+                self.session.note("matrix product over a symbolic dimension: entries uninterpreted, shape exact")
+                return self.reg.sym_tensor(self, self.ctx.fresh_name("matmul"), (a.shape[0], b.shape[1]))
             return T.matmul(a, b)
         table = {ast.Add: ops.add, ast.Sub: ops.sub, ast.Mult: ops.mul}
         if op in table:
